@@ -51,6 +51,16 @@ impl Buildpack for TB {
         match std::env::var("VERIF_DO").unwrap_or_default().as_str() {
             "pass" => DetectResultBuilder::pass().build(),
             "pass_plan" => DetectResultBuilder::pass().build_plan(BuildPlanBuilder::new().provides("witness").requires("witness").build()).build(),
+            // C20: several provides / requires per alternative and several alternatives, so an order leak (hash iteration) shows between two processes
+            "pass_richplan" => {
+                let mut b = BuildPlanBuilder::new();
+                for (g, names) in [vec!["jdk", "maven", "gradle", "node", "ruby", "python", "go", "rust"], vec!["jre", "jdk", "yarn", "npm", "pnpm", "bun"], vec!["php", "composer", "nginx", "apache", "caddy"]].iter().enumerate() {
+                    if g > 0 { b = b.or(); }
+                    for n in names { b = b.provides(*n); }
+                    for n in names.iter().rev() { b = b.requires(*n); }
+                }
+                DetectResultBuilder::pass().build_plan(b.build()).build()
+            }
             "fail" => DetectResultBuilder::fail().build(),
             _ => Err(Error::BuildpackError(TErr)),
         }
